@@ -3,12 +3,13 @@
    Invoke / Linearize / Respond; ghost history `done` of responded requests <<c, o, r>> in response
    order and `dels` = sequence numbers that a DelCmd removed (numbers are never reused). *)
 EXTENDS DaemonLin, FiniteSets
-CONSTANT MaxOps
+CONSTANTS MaxOps, Pool
 VARIABLES done, dels, cnt
 vars == <<store, pend, done, dels, cnt>>
 Op(op, a, b, t) == [NoOp EXCEPT !.op = op, !.a = a, !.b = b, !.t = t]
-Pool == {Op("AddCmd", 0, 0, <<1>>), Op("AddCmd", 0, 0, <<2>>), Op("DelCmd", 1, 0, <<>>), Op("Cmd", 1, 0, <<>>),
-         Op("NextCmdSeq", 0, 0, <<>>), Op("CmdsWithSeq", 0, -1, <<>>), Op("PrevCmd", 3, 0, <<1>>)}
+PoolSmall == {Op("AddCmd", 0, 0, <<1>>), Op("AddCmd", 0, 0, <<2>>), Op("DelCmd", 1, 0, <<>>),
+              Op("NextCmdSeq", 0, 0, <<>>), Op("CmdsWithSeq", 0, -1, <<>>)}
+PoolAll == PoolSmall \cup {Op("Cmd", 1, 0, <<>>), Op("PrevCmd", 3, 0, <<1>>), Op("NextCmd", 1, 0, <<>>)}
 Init == LinInit /\ done = <<>> /\ dels = {} /\ cnt = [c \in Clients |-> 0]
 Next == \E c \in Clients :
           \/ \E o \in Pool : cnt[c] < MaxOps /\ Invoke(c, o) /\ cnt' = [cnt EXCEPT ![c] = @ + 1] /\ UNCHANGED <<done, dels>>
